@@ -1064,6 +1064,42 @@ func (fr *Frame) lookupLocal(name string, at *ssa.BasicBlock, phiOverride map[*s
 			return tv, true
 		}
 	}
+	// a variable that lives in memory (address taken: captured by a closure, or &x) is read from its cell in the
+	// current state, whatever value a reference site happened to see
+	for _, b := range fn.Blocks {
+		for _, ins := range b.Instrs {
+			dr, ok := ins.(*ssa.DebugRef)
+			if !ok || !dr.IsAddr {
+				continue
+			}
+			if obj := dr.Object(); obj == nil || obj.Name() != name {
+				continue
+			}
+			if al, isAlloc := dr.X.(*ssa.Alloc); isAlloc {
+				if at != nil && !al.Block().Dominates(at) {
+					continue
+				}
+				if _, known := fr.places[al]; known {
+					pl := fr.place(al)
+					return TV{fr.load(pl, x.st), pl.Type}, true
+				}
+			}
+		}
+	}
+	for _, b := range fn.Blocks {
+		for _, ins := range b.Instrs {
+			al, ok := ins.(*ssa.Alloc)
+			if !ok || al.Comment != name {
+				continue
+			}
+			if at != nil && !al.Block().Dominates(at) {
+				continue
+			}
+			if pl, known := fr.places[al]; known && (pl.Kind == "cell" || pl.Kind == "box") {
+				return TV{fr.load(pl, x.st), pl.Type}, true
+			}
+		}
+	}
 	// DebugRefs
 	var best ssa.Value
 	var bestAddr bool
